@@ -280,9 +280,16 @@ pub fn run(ctx: &mut Ctx) {
                             let case = || json!({"facts": f.to_json(), "absent_term": absent, "format_version": version});
                             match crate::drive::from_bytes(&bytes) {
                                 Ok(Err(_)) | Err(_) => {}
+                                // an ontology may only come back if it is referentially closed (a decoder that drops
+                                // the unknown term instead of failing would still satisfy the property)
                                 Ok(Ok(ont)) => match Obs::of(&ont) {
                                     Err(i) => ctx.violation("Ontology::from_bytes", "returns an ontology with a dangling term id (read API panics) for a record naming an absent term", json!({"case": case(), "observed": i.what})),
-                                    Ok(_) => ctx.violation("Ontology::from_bytes", "accepts a record naming an absent term", json!({"case": case()})),
+                                    Ok(o) => {
+                                        let hands_out = o.recs.iter().any(|rs| rs.iter().any(|r| r.terms.contains(&absent)));
+                                        if hands_out {
+                                            ctx.violation("Ontology::from_bytes", "returns an ontology whose record lists a term that does not exist", json!({"case": case()}));
+                                        }
+                                    }
                                 },
                             }
                             ctx.sample(|| json!({"kind": kind.name(), "record_terms": terms, "absent": absent, "format_version": version}));
